@@ -33,6 +33,7 @@ type World struct {
 	c       *Case
 	Stats   *Stats
 	tags    []string
+	curF    string // the concrete operator of the step being executed (for the divergence label)
 }
 
 type Stats struct {
@@ -82,6 +83,8 @@ func (w *World) div(step int, kind, detail string) *Divergence {
 	}
 	if w.Cfg.Sub != "" {
 		op += ":" + w.Cfg.Sub
+	} else if w.curF != "" {
+		op += ":" + w.curF
 	}
 	return &Divergence{Case: w.c.ID, Fam: w.c.Fam, DT: w.Cfg.D.Name, Pal: w.Cfg.Pal.Name, Cfg: w.Cfg.Name,
 		Step: step, Op: op, Kind: kind, Detail: detail, Path: w.c.PathString(), Tags: append([]string{}, w.tags...)}
@@ -111,6 +114,24 @@ func Run(c *Case, cfg Config, stats *Stats) (*Divergence, Outcome) {
 	w := &World{Cfg: cfg, Ev: &vals.Evaluator{D: cfg.D, Pal: cfg.Pal, Sub: cfg.Sub}, c: c, Stats: stats,
 		altFull: map[int][]int{}, altDrop: map[int][]int{}}
 	w.Ev.CellDT = w.cellDT
+	if c.IExp != nil {
+		// C17: only element types that represent every operand value and every exact result take part
+		for h, xs := range c.IExp {
+			for _, v := range xs {
+				if v >= interpUndef {
+					continue
+				}
+				et := w.cellDT(c.Live[h].Cells[0])
+				if et.Class == vals.CBool && (v == 0 || v == 1) {
+					continue
+				}
+				if !et.Represents(v) {
+					stats.Open++
+					return nil, OpenEnd
+				}
+			}
+		}
+	}
 	stats.Execs++
 	for i := range c.Steps {
 		st := &c.Steps[i]
@@ -194,6 +215,12 @@ func Run(c *Case, cfg Config, stats *Stats) (*Divergence, Outcome) {
 			if open {
 				stats.Open++
 				return nil, OpenEnd
+			}
+			if last && c.IExp != nil {
+				if d := w.compareInterp(i); d != nil {
+					stats.Diverged++
+					return d, Diverged
+				}
 			}
 		}
 		_ = last
@@ -362,6 +389,30 @@ func (w *World) heapTerm(p *Post, cell int) *vals.Term {
 	return t
 }
 
+const interpUndef = 100000000
+
+// compareInterp: every element equals the specification's own integer interpretation (C17).
+func (w *World) compareInterp(i int) *Divergence {
+	for h, xs := range w.c.IExp {
+		t := w.live[h]
+		els, err := ElemsOf(t)
+		if err != nil || len(els) != len(xs) {
+			return w.div(i, "interp", fmt.Sprintf("h%d: %d elements read, %d expected (%v)", h+1, len(els), len(xs), err))
+		}
+		for k, exp := range xs {
+			if exp >= interpUndef {
+				continue
+			}
+			w.Stats.Compared++
+			got, ok := vals.ToInt64(els[k])
+			if !ok || got != exp {
+				return w.div(i, "interp", fmt.Sprintf("h%d element %d is %v; the type-generic definition gives %d (all elements %v)", h+1, k, els[k], exp, els))
+			}
+		}
+	}
+	return nil
+}
+
 // compare the observation of EVERY live tensor and of every caller-owned backing with the model.
 func (w *World) compare(i int, p *Post) (*Divergence, bool) {
 	if len(p.Live) != len(w.live) {
@@ -498,6 +549,21 @@ func (w *World) cellDT(id int) *vals.DT {
 // noteOrderTags names the data-order circumstances of an operation (used to identify listed findings):
 // "f-operand" some tensor operand is column-major; "mixed-order" operands / destination differ in data order.
 func (w *World) noteOrderTags(st *Step) {
+	w.curF = ""
+	switch st.Op.K {
+	case "Arith", "Cmp", "Unary", "Reduce", "Arg":
+		if x := decodeArr(st.Op.A); len(x) > 0 {
+			if f := decodeStr(x[0]); f != "OP" {
+				w.curF = f
+				if st.Op.K == "Reduce" && f == "add" {
+					w.curF = "sum"
+				}
+				if st.Op.K == "Arg" {
+					w.curF = "arg" + f
+				}
+			}
+		}
+	}
 	var hs []int
 	a := func() []json.RawMessage { return decodeArr(st.Op.A) }
 	switch st.Op.K {
